@@ -47,12 +47,40 @@ class _Opaque(_Unknown):
 OPQ = _Opaque()
 
 
+class _Node(_Unknown):
+    """The result of looking a string up in the mapping data: mapping data again, which remembers the keys that led to it.
+    Looking a further *component* up in it (`node = node.children.get(part)`, a trie keyed by name components) tests the dotted
+    name made of the whole key path."""
+
+    def __init__(self, path: tuple) -> None:
+        self.path = path
+
+    def __repr__(self) -> str:
+        return f"NODE{self.path}"
+
+
+class _MapMethod(_Unknown):
+    """A bound method of mapping data used as a function: `map(self._index.get, ancestors)`, `filter(names.__contains__, ...)`."""
+
+    def __init__(self, recv, attr: str) -> None:
+        self.recv, self.attr = recv, attr
+
+
 def _isu(v) -> bool:
     return isinstance(v, _Unknown)
 
 
+def _ismap(v) -> bool:
+    """Mapping data (read from the object / unknown inputs), as opposed to an opaque value derived from the name."""
+    return isinstance(v, _Unknown) and not isinstance(v, _Opaque)
+
+
+def _isopq(v) -> bool:
+    return isinstance(v, _Opaque)
+
+
 def _has_opq(v, depth: int = 0) -> bool:
-    if v is OPQ:
+    if _isopq(v):
         return True
     if isinstance(v, _Bound):
         return _has_opq(v.recv, depth + 1)
@@ -81,7 +109,7 @@ def _d(*inputs):
     """Result of an operation the unrolling does not model: opaque when it was applied to values derived from the name only."""
     if any(_has_opq(v) for v in inputs):
         return OPQ
-    if any(v is UNK or v == ("UNKSTR",) or (isinstance(v, (list, tuple)) and any(x is UNK for x in v)) for v in inputs):
+    if any(_ismap(v) or v == ("UNKSTR",) or (isinstance(v, (list, tuple)) and any(_ismap(x) for x in v)) for v in inputs):
         return UNK
     return OPQ if any(_concrete(v) for v in inputs) else UNK
 
@@ -121,11 +149,20 @@ class _Lib:
         self.name = name
 
 
+class _Ext:
+    """Something imported that is neither data of the mapping nor a function the unrolling models: a library module (`re`),
+    a class.  Calling it / its attributes with name-derived arguments yields an opaque value."""
+
+    def __init__(self, fq: str) -> None:
+        self.fq = fq
+
+
 class _Partial:
     def __init__(self, fn, args, kwargs) -> None:
         self.fn, self.args, self.kwargs = fn, list(args), dict(kwargs)
 
 
+_MAP_METHODS = {"get", "__getitem__", "__contains__", "pop", "setdefault", "index", "count", "intersection", "difference", "isdisjoint", "issuperset"}
 _BUILTIN_FUNCS = {"len", "list", "tuple", "set", "frozenset", "sorted", "iter", "reversed", "enumerate", "range", "zip", "str", "repr", "bool", "int", "min", "max", "sum", "abs", "any", "all", "next", "map", "filter", "isinstance", "dict"}
 _LIBRARY = {
     **{f"itertools.{n}": n for n in ("accumulate", "chain", "islice", "takewhile", "dropwhile", "pairwise", "starmap", "repeat", "count", "zip_longest", "product")},
@@ -200,14 +237,34 @@ class Walk:
             raise _Abort()
 
     # ------------------------------------------------------------------ recording
-    def look(self, s, node=None) -> None:
+    def look(self, s, node=None, base=None):
+        """`s` is looked up in / compared with mapping data `base`; returns what the lookup yields (mapping data again)."""
         if _has_opq(s):
             self.opaque.append(_src_of(node) if node is not None else "a derived name")
-            return
+            return UNK
+        if isinstance(s, (list, tuple)) and s != ("UNKSTR",):
+            for x in s:
+                self.look(x, node, base)
+            return UNK
         if isinstance(s, str) and s != "SELF":
+            path = base.path if isinstance(base, _Node) else ()
+            if path and "." not in s and all("." not in k for k in path):
+                # a descent by components (trie): the key path is the dotted name that is tested
+                full = ".".join([*path, s])
+                self.looked.add(full)
+                self.derived = True
+                return _Node((*path, s))
             self.looked.add(s)
             if s != self.name:
                 self.derived = True
+            return _Node((s,))
+        return UNK
+
+    def mixed(self, node, *inputs):
+        """Values derived from the name are handed, together with mapping data, to an operation the unrolling does not model:
+        which names are tested there is not known."""
+        if any(_ismap(v) or v == ("UNKSTR",) or (isinstance(v, (list, tuple)) and any(_ismap(x) for x in v)) for v in inputs) and any(isinstance(v, str) and v not in ("SELF",) or (isinstance(v, (list, tuple)) and v != ("UNKSTR",) and any(isinstance(x, str) for x in v)) for v in inputs):
+            self.opaque.append(_src_of(node) if node is not None else "a derived name")
 
     def truth(self, v) -> bool:
         if _isu(v) or isinstance(v, _Closure):
@@ -249,8 +306,8 @@ class Walk:
         elif isinstance(target, ast.Subscript):
             base = self.expr(target.value, env, None, 0)
             key = self.expr(target.slice, env, None, 0) if not isinstance(target.slice, ast.Slice) else UNK
-            if base is UNK:
-                self.look(key, target)
+            if _ismap(base):
+                self.look(key, target, base)
         elif isinstance(target, ast.Attribute):
             pass
 
@@ -343,7 +400,11 @@ class Walk:
         return [_d(v)]
 
     # ------------------------------------------------------------------ expressions
-    def binop(self, op, a, b):
+    def binop(self, op, a, b, node=None):
+        if isinstance(op, (ast.BitAnd, ast.Sub, ast.BitXor)) and ((_ismap(a) and isinstance(b, (list, tuple))) or (_ismap(b) and isinstance(a, (list, tuple)))):
+            # derived_names & listed_names / derived_names - listed_names: a membership test of every derived name
+            self.look(b if _ismap(a) else a, node, a if _ismap(a) else b)
+            return UNK
         if _unk(a, b) and not (isinstance(a, list) and isinstance(b, list)):
             return _t(a, b)
         try:
@@ -365,11 +426,11 @@ class Walk:
 
     def compare(self, op, a, b, node=None):
         if isinstance(op, (ast.In, ast.NotIn)):
-            if b is UNK:
-                self.look(a, node)
+            if _ismap(b):
+                self.look(a, node, b)
                 return UNK
             if isinstance(b, (list, tuple)) and _unk(b):
-                if any(x is UNK for x in b):
+                if any(_ismap(x) for x in b):
                     self.look(a, node)
                 if not _isu(a) and any(not _isu(x) and x == a for x in b):
                     return isinstance(op, ast.In)
@@ -377,7 +438,7 @@ class Walk:
             if _isu(b):
                 return OPQ
             if _isu(a):
-                if a is UNK and isinstance(b, (list, tuple)):
+                if _ismap(a) and isinstance(b, (list, tuple)):
                     for x in b:
                         self.look(x, node)
                 return _t(a)
@@ -391,10 +452,13 @@ class Walk:
                 return _t(a, b)
             r = a is b or (a is None and b is None) or (isinstance(a, (str, int, bool)) and a == b)
             return r if isinstance(op, ast.Is) else not r
+        if isinstance(op, (ast.LtE, ast.Lt, ast.GtE, ast.Gt)) and ((_ismap(a) and isinstance(b, (list, tuple))) or (_ismap(b) and isinstance(a, (list, tuple)))):
+            self.look(b if _ismap(a) else a, node, a if _ismap(a) else b)  # subset test against the listed names
+            return UNK
         if _isu(a) or _isu(b):
-            if isinstance(op, (ast.Eq, ast.NotEq)) and (a is UNK or b is UNK):
-                self.look(a if b is UNK else b, node)
-                if a is UNK and b is UNK:
+            if isinstance(op, (ast.Eq, ast.NotEq)) and (_ismap(a) or _ismap(b)):
+                self.look(a if _ismap(b) else b, node)
+                if _ismap(a) and _ismap(b):
                     return UNK
             return _t(a, b)
         try:
@@ -463,10 +527,15 @@ class Walk:
             v = self.expr(e.value, env, ctx, depth)
             if isinstance(v, str) and v != "SELF":
                 return _Bound(v, e.attr)  # "{}.{}".format, ".".join used as a function
-            if v is UNK:
-                g = self.global_name(e, ctx)
+            if isinstance(v, _Ext):
+                return self.global_name(e, ctx)
+            if _ismap(v):
+                g = self.global_name(e, ctx) if v is UNK else UNK
                 if isinstance(g, _Lib):
                     return g
+                if e.attr in _MAP_METHODS:
+                    return _MapMethod(v, e.attr)
+                return v  # a part of the mapping data (node.children, node.layer): keeps the key path
             return _t(v)
         if isinstance(e, (ast.List, ast.Tuple, ast.Set)):
             out: list = []
@@ -510,7 +579,7 @@ class Walk:
             a, b = self.expr(e.left, env, ctx, depth), self.expr(e.right, env, ctx, depth)
             if isinstance(e.op, ast.Add) and (a == ("UNKSTR",) or b == ("UNKSTR",) or (isinstance(a, str) and _isu(b)) or (_isu(a) and isinstance(b, str))):
                 return ("UNKSTR",)
-            return self.binop(e.op, a, b)
+            return self.binop(e.op, a, b, e)
         if isinstance(e, ast.Compare):
             left = self.expr(e.left, env, ctx, depth)
             res = True
@@ -518,7 +587,7 @@ class Walk:
                 right = self.expr(r, env, ctx, depth)
                 c = self.compare(op, _plain(left), _plain(right), e)
                 if _isu(c):
-                    res = c if res is True or c is OPQ else res
+                    res = c if res is True or _isopq(c) else res
                 elif not c:
                     return False
                 left = right
@@ -543,10 +612,9 @@ class Walk:
                 except Exception:  # noqa: BLE001
                     return _d(base, lo, hi, st)
             idx = self.expr(e.slice, env, ctx, depth)
-            if base is UNK:
-                self.look(idx, e)
-                return UNK
-            if base is OPQ:
+            if _ismap(base):
+                return self.look(idx, e, base) if isinstance(idx, str) else (base if isinstance(base, _Node) else UNK)
+            if _isopq(base):
                 return OPQ
             if _isu(idx) or not isinstance(base, (str, list, tuple)):
                 return OPQ if _concrete(base) else _t(base, idx)
@@ -596,7 +664,9 @@ class Walk:
             c = m.constants.get(attr)
             if isinstance(c, ast.Constant) and isinstance(c.value, (str, int)):
                 return c.value
-        return UNK
+            if attr in m.constants:
+                return UNK  # module-level data
+        return _Ext(fq)
 
     # ------------------------------------------------------------------ calls
     def apply(self, fn, args, ctx, depth, kwargs=None):
@@ -612,6 +682,13 @@ class Walk:
         if isinstance(fn, FuncInfo):
             return self.invoke(fn, None, args, kwargs or {}, depth)
         if isinstance(fn, _Bound):
+            if kwargs and fn.attr == "format":
+                if _unk(*args, *kwargs.values()) or not all(isinstance(v, (str, int)) for v in [*args, *kwargs.values()]):
+                    return _d(fn.recv, *args, *kwargs.values())
+                try:
+                    return fn.recv.format(*args, **kwargs)
+                except Exception:  # noqa: BLE001
+                    return _d(fn.recv, *args, *kwargs.values())
             return self.str_method(fn.recv, fn.attr, list(args))
         if isinstance(fn, _Lib):
             if fn.name.startswith("str."):
@@ -622,6 +699,11 @@ class Walk:
             return self.builtin(fn.name, list(args), kwargs or {}, ctx, depth)
         if isinstance(fn, _Partial):
             return self.apply(fn.fn, [*fn.args, *args], ctx, depth, {**fn.kwargs, **(kwargs or {})})
+        if isinstance(fn, _MapMethod):
+            return self.map_method(fn.recv, fn.attr, list(args), kwargs or {}, None)
+        if _ismap(fn):
+            self.mixed(None, fn, *args)
+            return UNK
         return _d(*args)
 
     def invoke(self, callee: FuncInfo, recv, args, kwargs, depth):
@@ -708,24 +790,31 @@ class Walk:
                 return UNK
             if isinstance(recv, (list, tuple)):
                 return self.list_method(f.value, recv, m, args, env)
-            if recv is OPQ:
+            if _isopq(recv):
                 return OPQ
             if isinstance(recv, _Lib):
                 return self.builtin(f"{recv.name}.{m}", args, kwargs, ctx, depth)
-            if recv == "SELF" or recv is UNK:
+            if isinstance(recv, _Ext):
+                callee = self.resolve(e, ctx)
+                if callee is not None:
+                    return self.invoke(callee, None, args, kwargs, depth)
+                g = self.global_name(f, ctx)
+                if isinstance(g, (_Lib, FuncInfo)):
+                    return self.apply(g, args, ctx, depth, kwargs)
+                self.mixed(e, *allargs)
+                return _d(*allargs)
+            if recv == "SELF" or _ismap(recv):
                 callee = self.resolve(e, ctx)
                 if callee is not None:
                     return self.invoke(callee, recv, args, kwargs, depth)
-                if recv is UNK:
+                if _ismap(recv):
                     lib = self.global_name(f, ctx)
                     if isinstance(lib, (_Lib, FuncInfo)):  # itertools.accumulate(...), operator.add(...), othermodule.helper(...)
                         return self.apply(lib, args, ctx, depth, kwargs)
                     if m in ("startswith", "endswith") and args and isinstance(args[0], str):
                         self.scan = True  # listed_name.startswith(...) - a comparison of every listed name with the name
                         return UNK
-                    for a in allargs:
-                        self.look(_plain(a), e)
-                    return UNK
+                    return self.map_method(recv, m, args, kwargs, e)
                 # a callable stored on the object that the resolver does not see through: the name escapes the unrolling
                 if any(_concrete(a) or _has_opq(a) for a in allargs):
                     self.opaque.append(_src_of(e))
@@ -735,8 +824,9 @@ class Walk:
         if isinstance(f, ast.Name):
             n = f.id
             if n in env:
-                if isinstance(env[n], (_Closure, FuncInfo, _Bound, _Lib, _Partial)):
+                if isinstance(env[n], (_Closure, FuncInfo, _Bound, _Lib, _Partial, _MapMethod)):
                     return self.apply(env[n], args, ctx, depth, kwargs)
+                self.mixed(e, env[n], *allargs)
                 return _d(env[n], *allargs)
             callee = self.resolve(e, ctx)
             if callee is not None:
@@ -747,9 +837,27 @@ class Walk:
             return self.builtin(n, args, kwargs, ctx, depth)
         # ---- a computed callable: (lambda ...)(x), partial(f, a)(b), "{}.{}".format(...) is handled above
         fn = self.expr(f, env, ctx, depth)
-        if isinstance(fn, (_Closure, FuncInfo, _Bound, _Lib, _Partial)):
+        if isinstance(fn, (_Closure, FuncInfo, _Bound, _Lib, _Partial, _MapMethod)):
             return self.apply(fn, args, ctx, depth, kwargs)
+        self.mixed(e, fn, *allargs)
         return _d(fn, *allargs)
+
+    def map_method(self, recv, m: str, args, kwargs, node):
+        """A method of mapping data called with (possibly) name-derived arguments: a lookup of those arguments."""
+        allargs = [*args, *kwargs.values()]
+        if m in ("get", "pop", "setdefault", "__getitem__", "__contains__", "index", "count", "find", "has", "lookup", "get_child", "child") and args:
+            r = self.look(_plain(args[0]), node, recv)
+            return r
+        if m in ("intersection", "difference", "issuperset", "isdisjoint", "__and__", "__rand__", "__ge__", "__gt__", "symmetric_difference"):
+            for a in allargs:
+                self.look(_plain(a), node, recv)
+            return UNK
+        if m in ("items", "values", "keys", "copy", "children", "elements"):
+            return recv
+        out = UNK
+        for a in allargs:
+            out = self.look(_plain(a), node, recv)
+        return out if len(allargs) == 1 else UNK
 
     def resolve(self, call: ast.Call, ctx) -> FuncInfo | None:
         src = getattr(call, "_src", None)
@@ -767,10 +875,10 @@ class Walk:
 
     def str_method(self, s: str, m: str, args):
         a0 = args[0] if args else None
-        if m in ("startswith", "endswith", "removeprefix", "removesuffix") and (a0 is UNK or a0 == ("UNKSTR",)):
+        if m in ("startswith", "endswith", "removeprefix", "removesuffix") and (_ismap(a0) or a0 == ("UNKSTR",)):
             self.scan = True  # the name is tested against (something built from) every listed name
             return UNK
-        if isinstance(a0, tuple) and m in ("startswith", "endswith") and any(x is UNK or x == ("UNKSTR",) for x in a0):
+        if isinstance(a0, tuple) and m in ("startswith", "endswith") and any(_ismap(x) or x == ("UNKSTR",) for x in a0):
             self.scan = True  # name.startswith(tuple of prefixes built from the listed names)
             return UNK
         if _unk(*args) or any(a == ("UNKSTR",) for a in args):
@@ -966,7 +1074,9 @@ class Walk:
                 out += self.iterate(a)
             return out
         if n in ("bisect", "bisect_left", "bisect_right", "insort", "insort_left", "insort_right"):
-            return UNK
+            return UNK  # a position in the listed names (the search order is decided by rules/c05_bisect.py)
+        if n in ("dict", "defaultdict", "OrderedDict", "Counter", "getattr", "hasattr", "id", "type", "print", "hash", "callable", "cast"):
+            return _t(*allargs) if n != "cast" or len(args) < 2 else args[1]
         if n == "partial" and args:
             return _Partial(a0, args[1:], kwargs)
         if n == "operator.add" or n == "operator.concat":
@@ -974,7 +1084,7 @@ class Walk:
                 a, b = args
                 if isinstance(a, str) and isinstance(b, str) and "SELF" not in (a, b):
                     return a + b
-                if (isinstance(a, str) and b is UNK) or (a is UNK and isinstance(b, str)) or ("UNKSTR",) in (a, b):
+                if (isinstance(a, str) and _ismap(b)) or (_ismap(a) and isinstance(b, str)) or ("UNKSTR",) in (a, b):
                     return ("UNKSTR",)
                 return self.binop(ast.Add(), a, b)
         if n == "operator.mod" and len(args) == 2:
@@ -989,6 +1099,7 @@ class Walk:
                 return self.compare(ast.In(), _plain(args[1]), _plain(a0))
             return self.compare(ast.Eq() if n == "operator.eq" else ast.NotEq(), _plain(a0), _plain(args[1]))
         # a function the unrolling does not model
+        self.mixed(None, *allargs)
         return _d(*allargs)
 
 
